@@ -4,6 +4,7 @@ import math
 from fractions import Fraction as Fr
 
 import gen
+import vlib
 from gen import i1_line, i2_line
 
 ID = "C10"
@@ -71,7 +72,7 @@ def generate(rng, tier):
         # ---------------- 1-D
         for strat_name, min_len in (("lin", 2), ("spl", 3)):
             for n in range(0, min_len + 3):
-                for trailing in ([], [2], [2, 1]) if (full or n >= min_len - 1) else ([],):
+                for trailing in ([], [2], [2, 1], [0], [2, 0], [3, 1]) if (full or n >= min_len - 1) else ([], [0]):
                     shape = [n] + trailing
                     L = gen.shape_size(trailing)
                     flat = [fmt_v((i * 7) % 5 - 2) for i in range(n * L)]
@@ -98,8 +99,22 @@ def generate(rng, tier):
                             fl = list(flat)
                             per_equal = True
                             if bc == "per" and n >= 1:
-                                if rng.random() < 0.5:
+                                r_ = rng.random()
+                                if r_ < 0.7:
                                     fl[(n - 1) * L:] = fl[:L]
+                                if 0.4 <= r_ < 0.7 and n >= 2 and L >= 1:
+                                    # almost periodic: one lane's last value is off by the smallest possible amount (another lane may
+                                    # be huge: the comparison must be exact and per lane)
+                                    j_ = rng.randrange(L)
+                                    if S == "Q":
+                                        fl[(n - 1) * L + j_] = fl[j_] + Fr(1, 2 ** 70)
+                                    else:
+                                        fl[j_] = fl[(n - 1) * L + j_] = 1e-6
+                                        fl[(n - 1) * L + j_] = vlib.next_up(fl[j_])
+                                    if L >= 2:
+                                        o_ = (j_ + 1) % L
+                                        big_ = Fr(10 ** 9) if S == "Q" else 1e9
+                                        fl[o_] = fl[(n - 1) * L + o_] = big_
                                 per_equal = fl[(n - 1) * L:] == fl[:L] if n >= 2 else True
                             viol = violated_1d(shape, ax, min_len)
                             extra_viol = set()
@@ -122,13 +137,14 @@ def generate(rng, tier):
         for nx, ny in itertools.product(range(0, 4), range(0, 4)):
             if not full and rng.random() < 0.4:
                 continue
-            shape = [nx, ny] + ([2] if rng.random() < 0.3 else [])
+            shape = [nx, ny] + rng.choice([[], [], [2], [1], [3], [2, 3], [0]])
             flat = [fmt_v((i * 3) % 7) for i in range(gen.shape_size(shape))]
             xv = axis_variants(rng, S, nx)
             yv = axis_variants(rng, S, ny)
-            for _ in range(6 if not full else 40):
-                ax, _ = rng.choice(xv)
-                ay, _ = rng.choice(yv)
+            picks = [(rng.choice(xv)[0], rng.choice(yv)[0]) for _ in range(6 if not full else 40)]
+            # the default axes (no .x()/.y() call) in every combination: their lengths are those of data axes 0 and 1
+            picks += [(None, None), (None, rng.choice(yv)[0]), (rng.choice(xv)[0], None)]
+            for ax, ay in picks:
                 viol = set()
                 if nx < 2 or ny < 2:
                     viol.add("NotEnoughData")
